@@ -32,8 +32,8 @@ PROPS["C14"] = dict(
 SEQ_NT_C01 = ["prev-is-prefix", "primary-rollover", "index-rollover", "primary-file-rolled", "put-update", "remove-present"]
 
 PROPS["C01"] = dict(
-    modules=[],
-    theorems=[],
+    modules=["Sth.Props.C08"],
+    theorems=["Sth.C08_inv", "Sth.C08_lookup", "Sth.C08_absent", "Sth.C08_codec"],
     runs=[dict(engine="seq", quick=400, thorough=30000, extra=["-profile", "c01"], nontrivial=SEQ_NT_C01)],
     rule="traces of Put/Get/Has/GetSize/Remove/Flush/iteration on the real store (multihash and CID primaries, index bits 8..24, "
          "index/primary file limits from 1 byte to the default, both immutability modes, keys clustered in <= 3 buckets with long "
@@ -46,8 +46,8 @@ PROPS["C01"] = dict(
 )
 
 PROPS["C04"] = dict(
-    modules=[],
-    theorems=[],
+    modules=["Sth.Props.C08"],
+    theorems=["Sth.C08_inv", "Sth.C08_lookup", "Sth.C08_absent", "Sth.C08_codec"],
     runs=[dict(engine="seq", quick=400, thorough=20000, extra=["-profile", "c04"],
                nontrivial=["igc-acted", "pgc-acted", "pgc-relocated", "igc-unlinked", "pgc-unlinked"])],
     requires_ops=["igc", "pgc"],
@@ -57,4 +57,33 @@ PROPS["C04"] = dict(
          "Non-trivial = distinct trace in which a cycle marked, merged, truncated, unlinked or relocated something. A failure is "
          "attributed to C04 only if it needs a GC op to manifest (the shrunk trace still contains one).",
     assumptions=["sequential histories (concurrent collectors are C06)", "GC cycles are invoked synchronously; the timers that start them are not modelled"],
+)
+
+CORE_RL = ["Sth.C08_inv", "Sth.C08_lookup", "Sth.C08_absent", "Sth.C08_codec"]
+
+PROPS["C02"] = dict(
+    modules=["Sth.Props.C08"],
+    theorems=list(CORE_RL),
+    runs=[dict(engine="seq", quick=400, thorough=10000, extra=["-profile", "c02"], nontrivial=["reopen", "reopen-rescan", "reopen-badsnap", "paths"])],
+    requires_ops=["close", "open", "paths", "rmsnap", "badsnap"],
+    rule="C01-style traces with Close/reopen at arbitrary positions: with the snapshot, with the snapshot deleted, with a "
+         "truncated snapshot (must fall back to the rescan); after every reopen every key is read back and the in-memory bucket "
+         "table and the byte-exact directory are compared with the model. The `paths` op evaluates the property on the "
+         "implementation alone: the live bucket table as Close left it, the table rebuilt from the snapshot and the table rebuilt "
+         "by rescanning the log (two copies of the directory) must be equal. Non-trivial = distinct trace with at least one reopen. "
+         "A failure is attributed to C02 only if it needs a close/reopen to manifest.",
+    assumptions=["Close returned without error", "same configuration on reopen (changed bit size is C09)"],
+)
+
+PROPS["C15"] = dict(
+    modules=["Sth.Props.C08"],
+    theorems=list(CORE_RL),
+    runs=[dict(engine="bs", quick=400, thorough=20000, nontrivial=["duplicate-put", "hash-mismatch-rejected", "hash-mismatch-unchecked", "cancelled", "delete", "empty-block"])],
+    rule="sequences of Put/PutMany/Get/Has/GetSize/DeleteBlock/HashOnRead on the real HashedBlockstore over blocks of 0..4 KiB, "
+         "CIDv0/v1, codecs raw/dag-pb/dag-cbor, sha2-256/sha2-512/blake2b-256/identity, aliases sharing a multihash, unknown CIDs, "
+         "live and cancelled contexts, blocks whose bytes do not hash to their CID; every output is compared with the Lean adapter "
+         "model over the store model and with the blockstore contract (a map from multihash digests to bytes). The real Sum is the "
+         "instance of the hash parameter: its verdict is trace input, the model never hashes. Non-trivial = distinct trace with a "
+         "duplicate put, a cancelled call, a delete, an empty block or a hash mismatch.",
+    assumptions=["digests of distinct blocks are distinct and prefix-free (real hashes; identity digests kept at equal length)"],
 )
